@@ -69,6 +69,13 @@ func c06Unit(c *RunCtx, unit int) {
 			step(act("dropsid", 3, -9, ""))
 			step(act("login", 3, other, "ok", "rm", "true"))
 		}
+		if !rememberLoaded {
+			// another instance over the same user table (or remember.Middleware used stand-alone) may
+			// have issued tokens: UpdatePassword documents that it invalidates them whenever the storer
+			// supports it
+			s.W.Store.PutTokens(U.PID, []string{sim.Sha512B64("foreign-instance-token-u"), sim.Sha512B64("foreign-instance-token-u2")})
+			s.W.Store.PutTokens(V.PID, []string{sim.Sha512B64("foreign-instance-token-v")})
+		}
 		jars := make([]string, 5)
 		for b := 0; b < 5; b++ {
 			jars[b] = s.Br[b].B.Jar["rm"]
@@ -158,6 +165,13 @@ func c06Unit(c *RunCtx, unit int) {
 			return
 		}
 		// (iv) every earlier remember cookie of U is dead, on every browser; rows purged
+		if rows := s.W.Store.Tokens(U.PID); !rememberLoaded && via == "update" && len(rows) != 0 {
+			fail("remember-rows-survive-password-change|update|remember-module-not-loaded", "%d remember-token rows of %q survive UpdatePassword on an instance that has not loaded the remember module (the storer supports token removal)", len(rows), U.PID)
+			return
+		} else if !rememberLoaded && len(s.W.Store.Tokens(V.PID)) == 0 {
+			fail("bystander-tokens-purged", "remember tokens of bystander %q were purged by %q's password change", V.PID, U.PID)
+			return
+		}
 		if rows := s.W.Store.Tokens(U.PID); rememberLoaded && len(rows) != 0 {
 			// a recover-and-login never asks to be remembered, so no fresh row can exist either
 			fail("remember-rows-survive-password-change|"+via, "%d remember-token rows of %q survive its password change via %s", len(rows), U.PID, via)
